@@ -408,3 +408,67 @@ Example C10_nonvacuous :
   In (Some (-1/1000)) [Some (-1/1000)] /\ ~ ad_value_ok (Some (-1/1000))).
 Proof. exact (conj dscore_hyps_example (conj F_hyps_example (conj pit_jitter_example (conj cvm_hyps_example (conj cvm_pvalue_hyps_example (conj ad_hyps_example ad_reject_example)))))). Qed.
 Print Assumptions C10_nonvacuous.
+
+(* ================================================================== *)
+(* The ensemble ranking on the REGENERATED program: [program] is the     *)
+(* MiniC translation of src/hydrodiy/stat/c_dscore.c produced from the   *)
+(* tree under test on every run (Gen/KernelsAst.v); [exec_fun] its       *)
+(* interpreter; qsort is glibc's merge sort with the translated          *)
+(* comparator.                                                           *)
+(* ================================================================== *)
+From Coq Require Import String Lia.
+From Hy Require Import Base.MiniC Gen.KernelsAst Proofs.RefineEnsrank.
+Open Scope string_scope.
+Open Scope list_scope.
+Open Scope Z_scope.
+
+(* c_ensrank over the reals = the model with glibc's merge sort in place of the model's
+   insertion sort, for EVERY input: both error returns (the enum codes), empty input,
+   0 members, any eps, any initial content of fmat and ranks *)
+Theorem C10_kernel_ensrank_refines_model_with_glibc_sort :
+  forall (eps : R) (sim : list (list R)) (ncol : nat) (fmat ranks : list R) (n : nat),
+  Forall (fun r => List.length r = ncol) sim ->
+  List.length fmat = (List.length sim * List.length sim)%nat ->
+  List.length ranks = List.length sim ->
+  (Nat.max (List.length sim) (2 * ncol) < n)%nat ->
+  exec_fun RR XRR program (S n) "c_ensrank"
+    [AVF eps; AVI (Z.of_nat (List.length sim)); AVI (Z.of_nat ncol); AVArrF (List.concat sim);
+     AVArrF fmat; AVArrF ranks]
+  = Ok (ens_outputs (ensrank_s RR KR (qs RR KR) eps sim) sim fmat ranks).
+Proof. exact refine_c_ensrank_qsort_RR. Qed.
+Print Assumptions C10_kernel_ensrank_refines_model_with_glibc_sort.
+
+(* ... = the model of the theorems above whenever the two sorts agree on every pooled
+   pair of ensembles, which holds whenever the tolerance comparator is total and
+   transitive on the pooled values ([pairs_preorder]: no chain a ~ b ~ c with a not ~ c) *)
+Theorem C10_kernel_ensrank_refines_model :
+  forall (eps : R) (sim : list (list R)) (ncol : nat) (fmat ranks : list R) (n : nat),
+  pairs_agree RR KR sim ->
+  Forall (fun r => List.length r = ncol) sim ->
+  List.length fmat = (List.length sim * List.length sim)%nat ->
+  List.length ranks = List.length sim ->
+  (Nat.max (List.length sim) (2 * ncol) < n)%nat ->
+  exec_fun RR XRR program (S n) "c_ensrank"
+    [AVF eps; AVI (Z.of_nat (List.length sim)); AVI (Z.of_nat ncol); AVArrF (List.concat sim);
+     AVArrF fmat; AVArrF ranks]
+  = Ok (ens_outputs (ensrank RR KR eps sim) sim fmat ranks).
+Proof. exact refine_c_ensrank_RR. Qed.
+Print Assumptions C10_kernel_ensrank_refines_model.
+
+Theorem C10_kernel_sorts_agree_when_comparator_is_a_preorder :
+  forall {T} (N : NumOps T) (K : DsConsts T) (rows : list (list T)),
+  pairs_preorder N K rows -> pairs_agree N K rows.
+Proof. exact @pairs_preorder_agree. Qed.
+Print Assumptions C10_kernel_sorts_agree_when_comparator_is_a_preorder.
+
+(* where the comparator is NOT transitive (members within its 1e-8 tolerance in a chain)
+   the model's insertion sort and the kernel's merge sort differ: witness in binary64
+   (the compiled kernel agrees with the translated program, not with the model) *)
+Example C10_kernel_model_differs_on_intransitive_ties :
+  ensrank F64 KF cx_eps cx_sim = EnsOk [(0, 1, 0%float)] [1%float; 2%float] /\
+  ensrank_s F64 KF (qs F64 KF) cx_eps cx_sim = EnsOk [(0, 1, 1%float)] [2%float; 1%float] /\
+  exec_fun F64 XF64 program 10 "c_ensrank"
+    [AVF cx_eps; AVI 2; AVI 2; AVArrF (List.concat cx_sim); AVArrF [9; 9; 9; 9]%float;
+     AVArrF [9; 9]%float]
+  = Ok (RI 0, [VArrF (List.concat cx_sim); VArrF [9; 1; 9; 9]%float; VArrF [2; 1]%float]).
+Proof. exact ensrank_model_differs. Qed.
